@@ -351,10 +351,11 @@ def popdict(s):
             "ns": ns_of(s.x)}
 
 
-def coherent(pop, prob: Problem, flow):
-    """[l, p, q] : does each cached value belong to the row's own coordinates?"""
+def coherent(pop, prob: Problem, flow, req_width=64):
+    """[l, p, q] : does each cached value belong to the row's own coordinates?
+    (tolerance from the *requested* precision: width defects belong to C15)"""
     x = pop["x"]
-    w = pop["width"]
+    w = min(pop["width"] or 64, req_width)
     out = []
     out.append(pop["ll"] is not None and len(pop["ll"]) == len(x) and close(pop["ll"], prob.ll_np(x), w))
     out.append(pop["lp"] is not None and len(pop["lp"]) == len(x) and close(pop["lp"], prob.lp_np(x), w))
@@ -464,6 +465,8 @@ def run_smc(cfg: dict, ids: IdTable | None = None, resume_from=None, role="singl
                   prior_flow=flow, xp=xp, dtype=c["dtype"],
                   parameters=[f"x_{i}" for i in range(c["dims"])],
                   preconditioning_transform=make_precond(c, xp), **init_kw)
+    if "rng" not in init_params and hasattr(sampler, "rng"):
+        sampler.rng = urng      # no constructor / call parameter: the attribute is the only way in
     sp = inspect.signature(sampler.sample).parameters
     if c["rng_route"] == "sample" and "rng" in sp:
         sample_kw["rng"] = urng
@@ -550,6 +553,12 @@ def project_group(gid: str, runs: list[dict], kind="smc_group") -> dict:
         for e in r["tracer"].ev:
             if "_beta" in e and math.isfinite(e["_beta"]):
                 vals.add(float(e["_beta"]))
+        rs = r.get("restore_state")
+        if rs is not None:
+            if rs.get("history") is not None:
+                vals.update(float(b) for b in rs["history"].beta)
+            if rs.get("meta", {}).get("beta") is not None:
+                vals.add(float(rs["meta"]["beta"]))
     order = sorted(vals)
     rank = {v: i for i, v in enumerate(order)}
     out_runs = []
@@ -593,6 +602,15 @@ def _project_run(r, rank) -> dict:
 
     evs = []
     last_kinit_rng = None
+    rs = r.get("restore_state")
+    if rs is not None:
+        Hs = rs.get("history")
+        b0 = rs.get("meta", {}).get("beta")
+        evs.append({"t": "restore", "iter": int(rs.get("iteration") or 0),
+                    "beta": rank.get(float(b0), -1) if b0 is not None else -1,
+                    "pop": ids.of(rs["samples"].x), "size": int(len(rs["samples"])),
+                    "hbetas": [rank.get(float(x), -1) for x in (Hs.beta if Hs is not None else [])],
+                    "hpops": [ids.of(q.x) for q in (Hs.sample_history if Hs is not None else [])]})
     for e in tr.ev:
         t = e["t"]
         if t in ("prior", "like", "draw", "logq", "kend"):
@@ -609,12 +627,14 @@ def _project_run(r, rank) -> dict:
         elif t == "choice":
             evs.append(_project_choice(e, hist_pops, betas, rank, c))
         elif t == "ckpt":
-            evs.append(_project_ckpt(e, rank, prob, flow, ids))
+            evs.append(_project_ckpt(e, rank, prob, flow, ids, 32 if c["dtype"] == "float32" else 64))
             if "file" in e:
                 evs.append({"t": "file", **_file_proj(e["file"])})
         elif t == "filecheck":
             evs.append({"t": "file", **_file_proj(e["file"])})
     out = {"role": r["role"], "status": r["status"], "exc": r["exc"][:200], "ev": evs,
+           "rcfg": {"every": c["every"] or 0, "n_final": c["n_final"] or 0,
+                    "max_n_steps": c["max_n_steps"] or 0, "has_path": c["path"] is not None},
            "resumed": bool(r["resumed"]), "orng_created": int(r["orng_created"]),
            "rng_calls": int(urng.ncalls)}
     if r["status"] == "ok":
@@ -665,11 +685,11 @@ def _series_len(H):
                                             "sample_history")}
 
 
-def _project_ckpt(e, rank, prob, flow, ids):
+def _project_ckpt(e, rank, prob, flow, ids, req_width=64):
     st = e["_state"]
     H = st.get("history")
     pop = popdict(st["samples"])
-    coh = coherent(pop, prob, flow)
+    coh = coherent(pop, prob, flow, req_width)
     b = e["_beta"]
     out = {"t": "ckpt", "iter": e["iter"], "beta": rank.get(b, -1), "pop": e["pop"], "size": e["size"],
            "bytes": e["bytes"], "coh": [bool(x) if x is not None else True for x in coh],
@@ -709,12 +729,12 @@ def _project_final(r, rank, hist_pops, hist_ids, betas, margin):
     # coherence of every stored population and of the result
     coh = []
     for p in hist_pops:
-        cc = coherent(p, prob, flow)
+        cc = coherent(p, prob, flow, w)
         coh.append([bool(x) if x is not None else True for x in cc])
     out["coh"] = coh
     rp = {"x": to_np(res.x), "ll": to_np(res.log_likelihood), "lp": to_np(res.log_prior),
           "lq": None, "width": width_of(res.x)}
-    cc = coherent(rp, prob, flow)
+    cc = coherent(rp, prob, flow, w)
     out["res_coh"] = [bool(cc[0]), bool(cc[1])]
     out["finite_prior"] = bool(len(hist_pops) == 0 or np.all(np.isfinite(hist_pops[0]["lp"])))
     out["init_size"] = int(len(hist_pops[0]["x"])) if hist_pops else -1
@@ -783,7 +803,14 @@ def _project_final(r, rank, hist_pops, hist_ids, betas, margin):
             e_n = ref_ess(pop, bf, min(1.0, bt + tol)) / n
             e_1 = ref_ess(pop, bf, 1.0) / n
             mrel = 1e-7 if w == 64 else 5e-3
-            meets.append(flag(e_b, target, mrel))
+            mb = flag(e_b, target, mrel)
+            if mb == "no":
+                # "within the stated tolerance": some temperature in [b - tol, b] is admissible
+                lo_b = max(bf, bt - tol)
+                e_lo = 1.0 if lo_b <= bf else ref_ess(pop, bf, lo_b) / n
+                if flag(e_lo, target, mrel) != "no":
+                    mb = "near"
+            meets.append(mb)
             nm = flag(e_n, target, mrel)
             if bt + tol >= 1.0 and bt < 1.0:
                 nm = flag(e_1, target, mrel)
